@@ -183,26 +183,29 @@ func (c *CheckCtx) boundN() string {
 
 func buildC01(c *CheckCtx) {
 	c.Level = "other"
-	c.Technique = "no-panic / termination / frame contracts: WP over go/ssa for the scanner helpers, pools, position builder, parser wrappers; Floyd/Houdini invariants over the generated scanner machine proved inductive per run (E-SCAN); shape obligations for every grammar action; buffer frame by ownership dataflow; bounded stand-in for progress and the LR driver"
+	c.Technique = "no-panic / termination / frame contracts: WP over go/ssa for the scanner helpers, pools, position builder, parser wrappers; Floyd/Houdini invariants over the generated scanner machine proved inductive per run (E-SCAN); Floyd/Houdini invariants over the generated LR driver of both grammars with table facts decided by exhaustive evaluation (E-DRV); shape obligations for every grammar action; buffer frame by ownership dataflow; bounded stand-in for progress"
 	c.addFunctionUnits(func(con *Contract) bool { return hasProp(con, "C01") })
 	c.addGram(gramWant{Shape: true})
 	c.addFrames("C01")
 	c.addScan()
+	c.addDrv("php7")
+	c.addDrv("php5")
 	c.runBoundedHarness("pkg/parser", "c01_bounded_test.go", "TestVCBoundedC01", []string{"VC_BOUND=" + c.boundN()},
 		"real parser.Parse on prefix·w for 17 mode-setting prefixes and every w over a 27-byte alphabet with |w| <= "+c.boundN()+", 3 version classes, with and without callback, 400 ms watchdog", "panic", "hang", "buffer")
-	c.Explain = "Proved per run (for all inputs): index/slice/nil/type-assertion safety, loop variants and frames of the scanner's helper functions (look-ahead predicates, call/ret/growCallStack, unget, token and position pools, NewLines), of the position builder, of the parser wrappers (NewLexer, NewParser, Parser.Lex/Error, parser.Parse) - each against its contract, with the helper preconditions as obligations at their verified call sites; for all 1014 grammar actions: every type assertion succeeds, no nil dereference, the optional callback is never called when nil, no stale $$ (under the inferred non-terminal contracts); the input buffer and the version are never written (frame over Parse's whole call tree). The generated scanner machine Lex is verified as generated (E-SCAN): cut-point invariants are inferred from the template in the contract file and proved inductive on every cut-to-cut path in this run; from them every index/slice expression and helper precondition inside Lex and the preservation of the representation invariant lexinv are discharged, except the obligations listed as unproved_withdrawn (facts about the automaton's language) and the known findings. NOT proved: progress/termination of Lex and the LR driver loop - for these a bounded stand-in runs the real parser exhaustively over a stated family of short inputs; it is labelled bounded and not counted."
-	c.assume("goyacc LR driver: calls Lex before Error, keeps its stack discipline (trusted generated code)")
+	c.Explain = "Proved per run (for all inputs): index/slice/nil/type-assertion safety, loop variants and frames of the scanner's helper functions (look-ahead predicates, call/ret/growCallStack, unget, token and position pools, NewLines), of the position builder, of the parser wrappers (NewLexer, NewParser, Parser.Lex/Error, parser.Parse) - each against its contract, with the helper preconditions as obligations at their verified call sites; for all 1014 grammar actions: every type assertion succeeds, no nil dereference, the optional callback is never called when nil, no stale $$ (under the inferred non-terminal contracts); the input buffer and the version are never written (frame over Parse's whole call tree). The generated scanner machine Lex is verified as generated (E-SCAN): cut-point invariants are inferred from the template in the contract file and proved inductive on every cut-to-cut path in this run; from them every index/slice expression and helper precondition inside Lex and the preservation of the representation invariant lexinv are discharged, except the obligations listed as unproved_withdrawn (facts about the automaton's language) and the known findings. The goyacc LR driver (*yyParserImpl).Parse of both grammar packages is verified as generated (E-DRV): cut-point invariants inferred from the template in the contract file and proved inductive in this run; every index into the stack and the parse tables, the exception-table loops, stack growth and the preconditions of Parser.Lex/Error are discharged from them and from range facts about the tables (decided by exhaustive evaluation of the arrays as they stand); the action regions are abstracted by their frame, checked on their code. Assumed and listed: the LR stack discipline at reductions (backed by the table lemma lr-depth). NOT proved: progress/termination of Lex and of the LR driver loop - for these a bounded stand-in runs the real parser exhaustively over a stated family of short inputs; it is labelled bounded and not counted."
 }
 
 func buildC06(c *CheckCtx) {
 	c.Level = "other"
-	c.Technique = "contracts on the error paths (WP over go/ssa): nil-safe optional callback at every error site, message and position of lexer and parser errors; callback non-interference by frame; bounded stand-in on the real parser for in-range positions, lines, order and callback independence"
+	c.Technique = "contracts on the error paths (WP over go/ssa): nil-safe optional callback at every error site, message and position of lexer and parser errors; error accounting of the generated LR driver by Floyd/Houdini invariants (E-DRV); callback non-interference by frame; bounded stand-in on the real parser for in-range positions, lines, order and callback independence"
 	c.addFunctionUnits(func(con *Contract) bool { return hasProp(con, "C06") })
 	c.addGram(gramWant{Shape: true})
 	c.addFrames("C06")
+	c.addDrv("php7")
+	c.addDrv("php5")
 	c.runBoundedHarness("pkg/parser", "c01_bounded_test.go", "TestVCBoundedC01", []string{"VC_BOUND=" + c.boundN()},
 		"real parser.Parse on prefix·w for 17 mode-setting prefixes and every w over a 27-byte alphabet with |w| <= "+c.boundN()+", 3 version classes, with and without callback", "callback-changes-tree", "error-empty-message", "error-position-range", "error-line", "error-order")
-	c.Explain = "Proved per run: every site that reports an error (Lexer.error, Parser.Error in both parser packages, php5's reportError and the grammar actions that call it) tests the optional callback for nil first and calls it exactly once otherwise; a lexer error carries the given non-empty message, the offsets ts..te of the scanner window and the lines NewLines.GetLine gives for them (GetLine verified against its sorted-array specification); a parser error forwards the driver's message with the position of the look-ahead token; parser.Parse hands the callback unchanged to lexer and parser; the root is stored only by rule 1. NOT decided: that every invalid input is reported and that a silent parse is complete (correctness of the LR driver and its tables); order of errors and callback-independence of the tree are only covered by the bounded stand-in."
+	c.Explain = "Proved per run: every site that reports an error (Lexer.error, Parser.Error in both parser packages, php5's reportError and the grammar actions that call it) tests the optional callback for nil first and calls it exactly once otherwise; a lexer error carries the given non-empty message, the offsets ts..te of the scanner window and the lines NewLines.GetLine gives for them (GetLine verified against its sorted-array specification); a parser error forwards the driver's message with the position of the look-ahead token; parser.Parse hands the callback unchanged to lexer and parser; the root is stored only by rule 1. The LR driver of both grammar packages, verified as generated (E-DRV): it returns 0 or 1, and 1 only after at least one call of Parser.Error (ghost count of Error calls == Nerrs at every cut point; Errflag in 0..3; Errflag > 0 implies Nerrs > 0); its calls of Parser.Error/Lex meet their preconditions; the Parser.Parse wrapper discharges the driver's precondition. NOT decided: that every invalid input makes the tables enter the error branch and that accept is reached only through rule 1 (language-level facts about the LALR tables); order of errors and callback-independence of the tree are only covered by the bounded stand-in."
 	c.assume("the error callback is passive caller code")
 }
 
